@@ -380,6 +380,9 @@ func cmdCheck(args []string) int {
 			if strings.HasPrefix(k, "used:") {
 				rep.Used = append(rep.Used, strings.TrimPrefix(k, "used:"))
 			}
+			if strings.HasPrefix(k, "deadlock-detail: ") {
+				fmt.Printf("  %s (x%d)\n", k, s.Counters[k])
+			}
 		}
 		sort.Strings(rep.Used)
 		for f, n := range s.FnCount {
@@ -500,16 +503,23 @@ func cmdCheck(args []string) int {
 						problems = append(problems, fmt.Sprintf("%s: cover %q predicted by the encoding was not reached natively (outcome %s): encoding and real code disagree", p.h.Fn, p.w.Label, oc.Outcome))
 					}
 				default:
-					repro := false
-					switch p.w.Kind {
-					case "assert":
-						repro = oc.Outcome == "assert:"+p.w.Label
-					case "panic":
-						repro = strings.HasPrefix(oc.Outcome, "panic:")
-					case "unwind":
-						repro = oc.Outcome == "timeout" || strings.HasPrefix(oc.Outcome, "assert:")
-					case "deadlock":
-						repro = oc.Outcome == "timeout"
+					repro := reproduced(p.w, oc)
+					// a hang found under the executor's cooperative schedule may need the native
+					// scheduler's cooperation: try the replay a few more times before giving up
+					if !repro && (p.w.Kind == "deadlock" || p.w.Kind == "unwind") {
+						for attempt := 1; attempt <= 4 && !repro; attempt++ {
+							rdir := filepath.Join(scratch, fmt.Sprintf("retry-%s-%d", strings.TrimSuffix(filepath.Base(p.file), ".json"), attempt))
+							os.MkdirAll(rdir, 0o755)
+							raw, _ := os.ReadFile(p.file)
+							os.WriteFile(filepath.Join(rdir, filepath.Base(p.file)), raw, 0o644)
+							oc2, err2 := runNativeReplay(pkgDir, byDir[pkgDir], rdir, maxT)
+							if err2 != nil {
+								break
+							}
+							if o, ok := oc2[filepath.Base(p.file)]; ok && reproduced(p.w, o) {
+								repro, oc = true, o
+							}
+						}
 					}
 					if !repro {
 						problems = append(problems, fmt.Sprintf("%s: counterexample for %q did not reproduce natively (outcome %s): treated as spurious, check is inconclusive", p.h.Fn, p.w.Label, oc.Outcome))
@@ -584,6 +594,21 @@ func cmdCheck(args []string) int {
 	}
 	fmt.Printf("OK property=%s tier=%s harnesses=%d wall=%.1fs\n", id, *tier, len(reports), wall)
 	return 0
+}
+
+// reproduced: did the native run show what the solver's counterexample predicts?
+func reproduced(w *interp.Witness, oc replayOutcome) bool {
+	switch w.Kind {
+	case "assert":
+		return oc.Outcome == "assert:"+w.Label
+	case "panic":
+		return strings.HasPrefix(oc.Outcome, "panic:")
+	case "unwind":
+		return oc.Outcome == "timeout" || strings.HasPrefix(oc.Outcome, "assert:")
+	case "deadlock":
+		return oc.Outcome == "timeout"
+	}
+	return false
 }
 
 func firstLine(s string) string {
